@@ -197,6 +197,7 @@ type Group struct {
 	DataEnd  int    `json:"dataEnd"`
 	Variant  string `json:"variant"` // Read: "" | last:<tag> | unk:<r> | go:<name>
 	KSel     string `json:"ksel"`    // all | win
+	Opt      []int  `json:"opt"`     // stand-alone readers: positions at which the stream may legitimately end
 }
 
 // Case is one run (replay file).
@@ -390,7 +391,7 @@ func runRead(file []byte, g *Group, k int, detail bool, out *[]ev) {
 	*out = append(*out, ev{"ev": "rr", "g": g.ID, "k": k, "err": err != nil, "panic": pmsg != "", "msg": pmsg})
 }
 
-func isRead(op string) bool { return op == "Read" }
+func isRead(op string) bool { return op == "Read" || isStandalone(op) }
 
 // detailed tells for which k a per-call trace is recorded as well.
 func detailed(g *Group, k int) bool {
@@ -463,7 +464,7 @@ func faultPoints(g *Group, file []byte) []int {
 
 func resetEvent(g *Group) ev {
 	return ev{"ev": "reset", "g": g.ID, "font": g.Name, "variant": g.Variant, "op": g.Op, "mode": g.Mode, "total": g.Total,
-		"dataEnd": g.DataEnd}
+		"dataEnd": g.DataEnd, "opt": append([]int{}, g.Opt...)}
 }
 
 // intact runs the operation without a fault and returns the bytes produced.
@@ -531,6 +532,21 @@ func groups(thorough bool) []*Group {
 		for r := 0; r < 4; r++ {
 			addRead(fi, name, fmt.Sprintf("unk:%d", r), ksel)
 		}
+		// every public stand-alone reader on the stream its own writer produced
+		f := makeFont(fi, thorough)
+		tabs := saTables(f)
+		for _, r := range saReaders {
+			if len(r.stream(f, tabs)) == 0 {
+				continue
+			}
+			modes := []string{"trunc"}
+			if r.viaReader {
+				modes = append(modes, "failat")
+			}
+			for _, m := range modes {
+				res = append(res, &Group{ID: len(res) + 1, FI: fi, Thorough: thorough, Name: name, Op: "sa:" + r.name, Mode: m, KSel: "all"})
+			}
+		}
 	}
 	// fonts not written by this library: the physically last table is "prep", copied undecoded
 	gof := []string{"regular", "mono"}
@@ -550,6 +566,22 @@ func groups(thorough bool) []*Group {
 // measure fills Total and DataEnd from a fault-free run (twice: the output must be reproducible).
 func measure(g *Group) []byte {
 	var a []byte
+	if isStandalone(g.Op) {
+		f := makeFont(g.FI, g.Thorough)
+		r := saByName(g.Op)
+		tabs := saTables(f)
+		a = r.stream(f, tabs)
+		g.Total = len(a)
+		g.DataEnd, g.Opt = demanded(g.Op, a)
+		var evs []ev
+		gg := *g
+		gg.Mode = "trunc"
+		runStandalone(r, a, tabs, &gg, len(a), &evs)
+		if evs[0]["err"].(bool) || evs[0]["panic"].(bool) {
+			vio.Fatal(fmt.Errorf("%s cannot read the intact stream of %s: %v", g.Op, g.Name, evs[0]["msg"]))
+		}
+		return a
+	}
 	if isRead(g.Op) {
 		a = buildFile(g)
 	} else {
@@ -577,6 +609,7 @@ const blockSize = 256
 
 type block struct {
 	g     *Group
+	tabs  map[string][]byte // stand-alone readers: the intact tables
 	file  []byte
 	ks    []int
 	out   []byte
@@ -586,6 +619,10 @@ type block struct {
 func runBlock(b *block, f *sfnt.Font) {
 	var evs []ev
 	for _, k := range b.ks {
+		if isStandalone(b.g.Op) {
+			runStandalone(saByName(b.g.Op), b.file, b.tabs, b.g, k, &evs)
+			continue
+		}
 		for _, det := range []bool{false, true} {
 			if det && !detailed(b.g, k) {
 				continue
@@ -609,6 +646,44 @@ func runBlock(b *block, f *sfnt.Font) {
 	b.out, b.lines = buf.Bytes(), len(evs)
 }
 
+var tabsByFont = map[int]map[string][]byte{}
+
+// tabCache returns the intact tables for stand-alone groups (nil otherwise).
+func tabCache(g *Group) map[string][]byte {
+	if !isStandalone(g.Op) {
+		return nil
+	}
+	if t, ok := tabsByFont[g.FI]; ok {
+		return t
+	}
+	t := saTables(makeFont(g.FI, g.Thorough))
+	tabsByFont[g.FI] = t
+	return t
+}
+
+// demanded returns the extent of a stream inside which a cut must be rejected, and the positions
+// inside it at which the format nevertheless allows the stream to end (spec/IOFault.tla, opt).
+func demanded(op string, data []byte) (int, []int) {
+	switch op {
+	case "sa:os2.Read":
+		// the OS/2 table grew over its versions: 68 bytes (version 0, Apple), 78, 86 (version 1), 96
+		var opt []int
+		for _, b := range []int{68, 78, 86} {
+			if b < len(data) {
+				opt = append(opt, b)
+			}
+		}
+		return len(data), opt
+	case "sa:glyf.Decode(loca cut)":
+		// a loca table has no length field: every whole number of entries is a complete table for a
+		// font with fewer glyphs (glyf.Decode is not told the glyph count); only "no panic" is demanded
+		return 0, nil
+	case "sa:header.Read+ReadTableBytes":
+		return sfntwalk.Walk(data).DataEnd(), nil
+	}
+	return len(data), nil
+}
+
 func all(dir string) {
 	thorough := vio.Thorough()
 	gs := groups(thorough)
@@ -621,7 +696,7 @@ func all(dir string) {
 			if hi > len(ks) {
 				hi = len(ks)
 			}
-			blocks = append(blocks, &block{g: g, file: file, ks: ks[lo:hi]})
+			blocks = append(blocks, &block{g: g, file: file, tabs: tabCache(g), ks: ks[lo:hi]})
 		}
 	}
 	// workers: each builds its own font values (nothing is shared between goroutines)
@@ -709,8 +784,11 @@ func one(casePath, outPath string) {
 	}
 	var evs []ev
 	evs = append(evs, resetEvent(&g))
+	if isStandalone(g.Op) {
+		runStandalone(saByName(g.Op), file, tabCache(&g), &g, c.K, &evs)
+	}
 	for _, det := range []bool{false, true} {
-		if det && isRead(g.Op) && (g.Mode == "strunc" || g.Mode == "sfail") {
+		if isStandalone(g.Op) || det && isRead(g.Op) && (g.Mode == "strunc" || g.Mode == "sfail") {
 			continue
 		}
 		if isRead(g.Op) {
